@@ -226,14 +226,15 @@ CHECKS = {
 
 # rules added after the texts above were written (kept separate so the per-property texts stay readable)
 EXTRA = {
-    "C01": "R01.6 StyledPixelsIterator::next of the triangle returns None only on paths on which lines_iter.next() is exhausted (found and fixed a defect). R01.5 every path of Image::draw / SubImage drawing passes through the one draw call of the wrapped image on the target translated by the offset (must-pass-through on path summaries).",
-    "C03": "R03.8 Translated, ColorConverted and Cropped forward every call: on every path of draw_iter / fill_contiguous / fill_solid / clear the parent's method of the same name is called once on self.parent and its outcome returned (must-pass-through). R03.9 iterator::contiguous::Cropped::new discards exactly S = crop.y * size.width + crop.x source colours (nth(S - 1) under 0 < S, nothing under S = 0). R03.6 stream forwarding: a fill_contiguous that forwards the caller's colour stream uncut hands on the caller's area or a translation of it; delegated pairing follows (area, colors) into helpers new to the tree.",
-    "C05": "R05.4 also: a row of the ellipse / rounded rectangle is given up only after an exhausted column search (no second, shortcut membership test). R05.5 a corner row of the rounded rectangle in which the corner search accepts no column starts / ends at the corner's own box edge, never at the rectangle's first / last column (contains() rejects the corner's columns of such a row). R05.6 rounded_rectangle::Points::next ends only when the scanline source is exhausted, not at an empty scanline.",
+    "C09": "R09.6 potential-function rule for ContiguousPixels::next: every pulling path consumes exactly S(after) - S(before) raw items with S = -(remaining_y*(width + row_skip) + remaining_x); a row change happens only at remaining_x = 0.",
+    "C01": "R01.6 StyledPixelsIterator::next of the triangle returns None only on paths on which lines_iter.next() is exhausted (found and fixed a defect). R01.5 every path of Image::draw / SubImage drawing passes through the one draw call of the wrapped image on the target translated by the offset (must-pass-through on path summaries). R01.7 no renderer (draw / draw_styled / text and image renderers, their closures and new helpers) asks the DrawTarget-bounded value for bounding_box() / size().",
+    "C03": "R03.8 Translated, ColorConverted and Cropped forward every call: on every path of draw_iter / fill_contiguous / fill_solid / clear the parent's method of the same name is called once on self.parent and its outcome returned (must-pass-through). R03.9 iterator::contiguous::Cropped::new discards exactly S = crop.y * size.width + crop.x source colours (nth(S - 1) under 0 < S, nothing under S = 0). R03.6 stream forwarding: a fill_contiguous that forwards the caller's colour stream uncut hands on the caller's area or a translation of it; delegated pairing follows (area, colors) into helpers new to the tree. R03.10 potential-function rule for contiguous::Cropped::next: every pulling path consumes exactly S(after) - S(before) source items with S = y*(size.width + row_skip) + x, pulls once and returns that pull.",
+    "C05": "R05.4 also: a row of the ellipse / rounded rectangle is given up only after an exhausted column search (no second, shortcut membership test). R05.5 a corner row of the rounded rectangle in which the corner search accepts no column starts / ends at the corner's own box edge, never at the rectangle's first / last column (contains() rejects the corner's columns of such a row). R05.6 rounded_rectangle::Points::next ends only when the scanline source is exhausted, not at an empty scanline. R05.7 RoundedRectangle::contains is RoundedRectangleContains::new(self).contains(point) on every path.",
     "C07": "R07.5 on every path of Polyline::bounding_box the result is the documented empty box or every use of the vertex slice has self.translate added.",
-    "C14": "R14.5 builder integrity: every MonoTextStyleBuilder method that returns the builder keeps each style field in place unless it sets it from its arguments or a constant; no field receives a different field of the incoming style; From<&Style> carries every field.",
+    "C14": "R14.5 builder integrity: every MonoTextStyleBuilder method that returns the builder keeps each style field in place unless it sets it from its arguments or a constant; no field receives a different field of the incoming style; From<&Style> carries every field. R14.6 all font constants of one glyph subset module use the same glyph mapping.",
     "C15": "R15.6 builder integrity of TextStyleBuilder (as R14.5). R15.7 sibling agreement: the font constants of one name carry the same metrics (size, spacing, baseline, underline, strikethrough) in every glyph subset.",
     "C20": "R20.6 every returning path of from_pattern has established width <= SIZE and height <= SIZE and no other condition on the pattern's dimensions. R20.5 also counts mutable borrows of the cell array through a &mut MockDisplay as stores (a display the function itself is building is exempt).",
-    "C02": "R02.10 every path of Polyline::draw_styled that touches the target with the raw stroke colour has excluded stroke_width == 0. R02.9 Line::styled_bounding_box is with_corners over exactly the four end points of extents(stroke_width, StrokeOffset::None) (a fold over the literal array of the four points is expanded). R02.11 the collapsed-triangle special case of ScanlineIntersections::new depends on the geometry alone (is_collapsed(..) && offset == Right): a path storing false has refuted one of the two, a path storing true established both.",
+    "C02": "R02.10 every path of Polyline::draw_styled that touches the target with the raw stroke colour has excluded stroke_width == 0. R02.9 Line::styled_bounding_box is with_corners over exactly the four end points of extents(stroke_width, StrokeOffset::None) (a fold over the literal array of the four points is expanded). R02.11 the collapsed-triangle special case of ScanlineIntersections::new depends on the geometry alone (is_collapsed(..) && offset == Right): a path storing false has refuted one of the two, a path storing true established both. R02.12 Triangle::styled_bounding_box builds its thick segments from sorted_clockwise() vertices, style.stroke_width and StrokeOffset::from(style.stroke_alignment) on every path.",
     "C06": "R01.4 (shared with C01) Scanline::draw is one fill_solid of exactly the run's columns iff the run is not empty. R06.7 the fill range of a styled scanline (circle, ellipse, rounded rectangle) is searched over the stroke scanline's own column range from its first column; a skipped or shifted range is reported.",
     "C11": "R11.8 layout form: load/store of the sub-byte types with every helper inlined, evaluated in the bit domain for both data orders and every pixel index of two bytes against the documented layout (independent of the bit_position helper). R11.6 construction: RawDataSlice::into_iter starts with data = self.data and index = 0. R11.9 the public RawData::load/store of all 7 types hand (self,) buffer, index to LoadStore and return its outcome on every path; a path answering by itself must have established load(buffer, index) is Some(self) (Ok without a store) or is None (Err/None).",
     "C12": "O6 also covers to_ne_bytes (native order of the analysed host build). O0 also: every direct construction of a raw tuple struct outside new / new_unmasked stores a value whose bits at and above BITS_PER_PIXEL are provably zero.",
